@@ -355,6 +355,8 @@ def eval_column(case):
                 ev.add("column:malformed-error", str(e))
     if nwarn:
         ev.add("column:warning-without-raise_warning", {"n": nwarn})
+    if kind != "internal":
+        shown_check(vform, log, "validate:" + entry)
 
     # ---- 4. n_failure_cases: verdict unchanged, truncation only
     if n is not None:
@@ -1233,15 +1235,38 @@ def _k_pl_true(family, case, disc):
             and isinstance(disc.detail, dict) and disc.detail.get("form") == "total")
 
 
+def selftest():
+    """Calibrate the pure-Python reference on literal examples (docs/source/checks.md, DESIGN section 6)."""
+    gt0 = {"k": "gt", "a": 0}
+    fx = [
+        (M.ref_fail_positions("float", [1, None, -1], gt0, True), [2]),       # gt(0) with NaN, ignore_na=True: accept NaN
+        (M.ref_fail_positions("float", [1, None, -1], gt0, False), [1, 2]),   # ... ignore_na=False: NaN fails
+        (M.ref_fail_positions("str", ["a", None, "abc"], {"k": "strlen", "n": 3}, True), [2]),
+        (M.ref_fail_positions("str", ["a", None], {"k": "isin", "A": ["a"]}, False), [1]),
+        (M.ref_fail_positions("int", [4, 5, 6], {"k": "mod", "m": 2, "r": 0}, True), [1]),
+        (M.ref_group([("a",), ("b",), ("a",)], [1, 2, 3], False), {"str:'a'": [1, 3], "str:'b'": [2]}),
+        (M.ref_group([("a", 1), ("a", 2)], [1, 2], True), {"(str:'a',int:1)": [1], "(str:'a',int:2)": [2]}),
+        (M.tkey(True) != M.tkey(1), True),
+        (M.builtin_scalar("in_range", [1, 3, False])(1), False),              # in_range(1,3,include_min=False) on 1
+        (M.builtin_scalar("in_range", [1, 3])(3), True),
+        (M.builtin_scalar("not_equal_to", [0])(float("nan")), True),          # ne(0) on NaN is true
+    ]
+    for i, (got, want) in enumerate(fx):
+        if got != want:
+            raise HarnessError(f"C19 reference model calibration fixture {i}: {got!r} != {want!r}")
+    for fid in known.registered(PROPERTY):
+        pass
+
+
 FAMILIES = [
-    Family("column", eval_column, strategy=strat_column, n_quick=450, n_thorough=4000, shards_quick=4,
+    Family("column", eval_column, strategy=strat_column, n_quick=550, n_thorough=6000, shards_quick=4,
            shards_thorough=16, setup=_setup,
            required_labels=["has-null", "null-fails", "idx=dup", "n=set", "ignore_na=False", "ref=fail", "empty"]),
-    Family("frame", eval_frame, strategy=strat_frame, n_quick=300, n_thorough=3000, shards_quick=3,
+    Family("frame", eval_frame, strategy=strat_frame, n_quick=350, n_thorough=4000, shards_quick=3,
            shards_thorough=16, setup=_setup,
            required_labels=["frame:partial-null-row", "frame:form=ew", "frame:pred=cell_gt", "frame:pred=all_gt",
                             "frame:behind-known(no null or ignore_na=False)", "frame:ref=fail"]),
-    Family("groupby", eval_groupby, strategy=strat_groupby, n_quick=300, n_thorough=3000, shards_quick=3,
+    Family("groupby", eval_groupby, strategy=strat_groupby, n_quick=350, n_thorough=4000, shards_quick=3,
            shards_thorough=16, setup=_setup,
            required_labels=["gb:how=call", "gb:how=call_derived", "gb:groups=subset", "gb:has-null", "gb:level=frame",
                             "gb:empty-group(unobserved category)", "gb:behind-known", "gb:cols=g+h"]),
